@@ -71,7 +71,7 @@ Definition pm_oracle_joins (u : list pm_entry) (inv : list pm_obj) (joined : lis
 Definition pm_allows (u : list pm_entry) (perm : pm_str) (inv : list pm_obj) : list (pm_key * bool) :=
   let '(found, pf) := pm_has_permission u perm in
   if found then
-    flat_map (fun o => match pm_eval_opt pf None o with
+    flat_map (fun o => match pm_eval_opt pf o with
                        | PmT => [(pm_key_of o, false)]
                        | PmE => [(pm_key_of o, true)]
                        | PmF => []
